@@ -135,3 +135,116 @@ pub fn guarded<T>(f: impl FnOnce() -> T) -> Result<T, String> {
 pub fn quiet_panics() {
     std::panic::set_hook(Box::new(|_| {}));
 }
+
+// ------------------------------------------------------------------------------------------
+// programs: JSON commands {k,h,d,ap} <-> UnOptCode, canonical source text
+
+pub mod prog {
+    use hyeong::core::area::Area;
+    use hyeong::core::code::UnOptCode;
+    use serde_json::Value;
+
+    pub const HEARTS: [char; 12] = ['♥', '❤', '💕', '💖', '💗', '💘', '💙', '💚', '💛', '💜', '💝', '♡'];
+    pub const SINGLE: [char; 6] = ['형', '항', '핫', '흣', '흡', '흑'];
+    pub const START: [char; 6] = ['혀', '하', '하', '흐', '흐', '흐'];
+    pub const FILL: [char; 6] = ['어', '아', '아', '으', '으', '으'];
+    pub const END: [char; 6] = ['엉', '앙', '앗', '읏', '읍', '윽'];
+
+    /// area tree from prefix notation (0 Nil, 63 ?, 33 !, 100+t heart)
+    pub fn area_from_prefix(ap: &[u32]) -> Area {
+        fn go(ap: &[u32], i: &mut usize) -> Area {
+            let t = ap[*i];
+            *i += 1;
+            match t {
+                0 => Area::Nil,
+                63 | 33 => {
+                    let l = go(ap, i);
+                    let r = go(ap, i);
+                    Area::Val { type_: if t == 63 { 0 } else { 1 }, left: Box::new(l), right: Box::new(r) }
+                }
+                _ => Area::new((t - 100) as u8),
+            }
+        }
+        let mut i = 0;
+        go(ap, &mut i)
+    }
+
+    pub fn prefix_of(v: &Value) -> Vec<u32> {
+        v.as_array().map(|a| a.iter().map(|x| x.as_u64().unwrap() as u32).collect()).unwrap_or_else(|| vec![0])
+    }
+
+    /// source text of the area, written so that the grammar reads back exactly this tree
+    /// (valid for grammar-shaped trees: left of ? is a !-chain, left of ! is a slot)
+    pub fn area_text(ap: &[u32]) -> String {
+        // infix: prefix -> in-order traversal
+        fn go(ap: &[u32], i: &mut usize, out: &mut String) {
+            let t = ap[*i];
+            *i += 1;
+            match t {
+                0 => {}
+                63 | 33 => {
+                    go(ap, i, out);
+                    out.push(if t == 63 { '?' } else { '!' });
+                    go(ap, i, out);
+                }
+                _ => out.push(HEARTS[(t - 102) as usize]),
+            }
+        }
+        let mut s = String::new();
+        let mut i = 0;
+        go(ap, &mut i, &mut s);
+        s
+    }
+
+    pub fn cmd_text(k: usize, h: usize, d: usize, ap: &[u32]) -> String {
+        let mut s = String::new();
+        if h == 1 {
+            s.push(SINGLE[k]);
+        } else {
+            s.push(START[k]);
+            for _ in 0..h - 2 {
+                s.push(FILL[k]);
+            }
+            s.push(END[k]);
+        }
+        for _ in 0..d {
+            s.push('.');
+        }
+        s.push_str(&area_text(ap));
+        s
+    }
+
+    /// canonical source text of a program given as JSON commands
+    pub fn program_text(cmds: &Value) -> String {
+        let mut s = String::new();
+        for c in cmds.as_array().unwrap() {
+            let k = c["k"].as_u64().unwrap() as usize;
+            let h = c["h"].as_u64().unwrap() as usize;
+            let d = c["d"].as_u64().unwrap() as usize;
+            s.push_str(&cmd_text(k, h, d, &prefix_of(&c["ap"])));
+            s.push(' ');
+        }
+        s
+    }
+
+    pub fn code_of(c: &Value, idx: usize) -> UnOptCode {
+        let k = c["k"].as_u64().unwrap() as usize;
+        let h = c["h"].as_u64().unwrap() as usize;
+        let d = c["d"].as_u64().unwrap() as usize;
+        let ap = prefix_of(&c["ap"]);
+        UnOptCode::new(k as u8, h, d, (1, idx), area_from_prefix(&ap), cmd_text(k, h, d, &ap))
+    }
+
+    pub fn codes_of(cmds: &Value) -> Vec<UnOptCode> {
+        cmds.as_array().unwrap().iter().enumerate().map(|(i, c)| code_of(c, i)).collect()
+    }
+}
+
+/// compact projection of a rational for machine traces: [up negative?, up digits, down negative?, down digits]
+/// (NaN: down digits empty)
+pub fn num_compact(n: &Num) -> Value {
+    let (up, down) = n.verif_parts();
+    let u = bn_json(up);
+    let d = bn_json(down);
+    json!([u["neg"], u["mag"], d["neg"], d["mag"]])
+}
